@@ -48,6 +48,7 @@ func verifReset() {
 	verifMu.Lock()
 	defer verifMu.Unlock()
 	verifRef, verifLog, verifSeqN, verifFailed = false, nil, 0, nil
+	verifArgs = map[int][]int{}
 }
 
 func verifNdInt(site int) int   { return int(verifModel[fmt.Sprintf("nd_int_%%d", site)]) }
@@ -141,6 +142,23 @@ func verifSeq() int {
 	defer verifMu.Unlock()
 	verifSeqN++
 	return verifSeqN - 1
+}
+var verifArgs = map[int][]int{}
+
+func verifArgLog(k int) {
+	verifMu.Lock()
+	verifArgs[k] = append(verifArgs[k], verifSeqN)
+	verifSeqN++
+	verifMu.Unlock()
+}
+func verifArgCount(k int) int { verifMu.Lock(); defer verifMu.Unlock(); return len(verifArgs[k]) }
+func verifArgSeq(k int) int {
+	verifMu.Lock()
+	defer verifMu.Unlock()
+	if s := verifArgs[k]; len(s) > 0 {
+		return s[len(s)-1]
+	}
+	return -1
 }
 func verifSchedConcurrency() int { return int(verifModel["replay_sched_concurrency"]) }
 func verifSchedEnqueues() int    { return int(verifModel["replay_sched_enqueues"]) }
@@ -370,4 +388,37 @@ func runReplayL2(rf *ReplayFile, corpusSrc string) (bool, string, error) {
 		ok = strings.Contains(rf.What, "panic") || strings.Contains(rf.What, "fault") || strings.Contains(rf.What, "crash")
 	}
 	return ok, s, nil
+}
+
+// WriteBuildReplay records a "generated code does not compile" counterexample.
+func WriteBuildReplay(dir, prop, corpusPkg, what string) (string, error) {
+	h := sha1.New()
+	h.Write([]byte(prop + corpusPkg + what))
+	id := fmt.Sprintf("%s-build-%x", prop, h.Sum(nil)[:6])
+	rd := filepath.Join(dir, id)
+	if err := os.MkdirAll(rd, 0o755); err != nil {
+		return "", err
+	}
+	rf := ReplayFile{Property: prop, Layer: "L2-build", CorpusPkg: corpusPkg, What: what,
+		Cmd: "vcheck replay " + filepath.Join(rd, "replay.json") + "   # builds cff from /repo, runs it on /verif/corpus/" + corpusPkg + " and type-checks the output with go vet"}
+	out, _ := json.MarshalIndent(rf, "", " ")
+	path := filepath.Join(rd, "replay.json")
+	return path, os.WriteFile(path, out, 0o644)
+}
+
+func runReplayBuild(rf *ReplayFile, corpusSrc string) (bool, string, error) {
+	c, err := PrepareCorpus(corpusSrc, []string{rf.CorpusPkg}, "base", false)
+	defer c.Cleanup()
+	if err != nil {
+		return false, "", err
+	}
+	cmd := exec.Command("go", "vet", "./"+rf.CorpusPkg)
+	cmd.Dir = c.ModDir
+	cmd.Env = goEnv()
+	out, verr := cmd.CombinedOutput()
+	s := c.GenLog + string(out)
+	if verr != nil && strings.Contains(string(out), "_gen.go") {
+		return true, "REPRODUCED property=" + rf.Property + ": cff exited 0 but its output does not type-check\n" + s, nil
+	}
+	return false, "NOT-REPRODUCED property=" + rf.Property + "\n" + s, nil
 }
